@@ -1,4 +1,12 @@
-(** Proofs about Tree/Trace.v (C12). *)
+(** Proofs about Tree/Trace.v (C12).
+    Main results: [c12_all_plans] / [c12_all_faults] (every well-formed frame tree, every fault
+    position: well bracketed, no write after the failure, in scope), [c12_clean_run] (the fault-free
+    run, and no callback fails in it), [run_flag_iff_any_failed] (a subtree reports failure exactly
+    when one of its callbacks failed).
+    Route: [marks_in] (which begin/end events a trace can contain: only those of [chains t]),
+    [bp_skip] / [bp_closed] (composition of [bracket_path] over concatenation), the three chain
+    lemmas [bp_begins_open], [bp_run_begins_fail] (rollback), [bp_run_ends_close], then induction over
+    the frame tree ([etree_ind2]) with [run_list] naming the body loop of [run]. *)
 From Coq Require Import List Bool Arith Lia Strings.Byte.
 From YV Require Import Tree.Trace.
 Import ListNotations.
@@ -44,3 +52,657 @@ Fixpoint disjoint_nesting (t : etree) : bool :=
 
 Definition wf_tree (root : path) (t : etree) : bool :=
   no_marks t && frame_scoped root t && disjoint_nesting t.
+
+(** * reflection of the boolean tests *)
+Lemma path_eqb_eq : forall a b, path_eqb a b = true <-> a = b.
+Proof.
+  induction a as [|x a IH]; destruct b as [|y b]; simpl; split; intros H; try reflexivity; try discriminate.
+  - apply andb_true_iff in H. destruct H as [H1 H2]. apply byte_dec_bl in H1. apply IH in H2. congruence.
+  - inversion H; subst. apply andb_true_iff. split. apply byte_dec_lb; reflexivity. apply IH; reflexivity.
+Qed.
+
+Lemma path_eqb_refl : forall a, path_eqb a a = true.
+Proof. intros. apply path_eqb_eq. reflexivity. Qed.
+
+Lemma path_eqb_neq : forall a b, a <> b -> path_eqb a b = false.
+Proof. intros a b H. destruct (path_eqb a b) eqn:E; auto. apply path_eqb_eq in E. contradiction. Qed.
+
+Definition path_eq_dec : forall a b : path, {a = b} + {a <> b} := list_eq_dec byte_eq_dec.
+Definition tp_eq_dec : forall a b : bool * path, {a = b} + {a <> b}.
+Proof. decide equality; [apply path_eq_dec | apply bool_dec]. Defined.
+
+Lemma tp_eqb_eq : forall a b, tp_eqb a b = true <-> a = b.
+Proof.
+  intros [t1 p1] [t2 p2]. unfold tp_eqb. simpl. rewrite andb_true_iff, path_eqb_eq, eqb_true_iff.
+  split. intros [-> ->]; reflexivity. intros H; inversion H; auto.
+Qed.
+
+Lemma existsb_tp_In : forall q l, existsb (tp_eqb q) l = true <-> In q l.
+Proof.
+  intros q l. rewrite existsb_exists. split.
+  - intros [x [Hin Heq]]. apply tp_eqb_eq in Heq. subst. assumption.
+  - intros Hin. exists q. split. assumption. apply tp_eqb_eq. reflexivity.
+Qed.
+
+Lemma nodup_tp_NoDup : forall l, nodup_tp l = true -> NoDup l.
+Proof.
+  induction l as [|x l IH]; simpl; intros H. constructor.
+  apply andb_true_iff in H. destruct H as [H1 H2]. constructor.
+  - intros Hin. apply existsb_tp_In in Hin. rewrite Hin in H1. discriminate.
+  - apply IH. assumption.
+Qed.
+
+Definition memb (p : path) (l : list path) : bool := if in_dec path_eq_dec p l then true else false.
+Lemma memb_in : forall p l, In p l -> memb p l = true.
+Proof. intros. unfold memb. destruct (in_dec path_eq_dec p l); auto; contradiction. Qed.
+Lemma memb_notin : forall p l, ~ In p l -> memb p l = false.
+Proof. intros. unfold memb. destruct (in_dec path_eq_dec p l); auto; contradiction. Qed.
+
+Lemma NoDup_app_l : forall (A : Type) (a b : list A), NoDup (a ++ b) -> NoDup a.
+Proof.
+  intros A a b. induction b as [|x b IH]; intros H. rewrite app_nil_r in H. assumption.
+  apply IH. eapply NoDup_remove_1. eassumption.
+Qed.
+
+(** * induction over frame trees *)
+Section etree_ind2.
+  Variable P : etree -> Prop.
+  Hypothesis HEv : forall e, P (Ev e).
+  Hypothesis HFrame : forall c tg body, Forall P body -> P (Frame c tg body).
+  Fixpoint etree_ind2 (t : etree) : P t :=
+    match t with
+    | Ev e => HEv e
+    | Frame c tg body =>
+        HFrame c tg body
+          ((fix f (l : list etree) : Forall P l :=
+              match l with [] => Forall_nil P | x :: l' => Forall_cons x (etree_ind2 x) (f l') end) body)
+    end.
+End etree_ind2.
+
+(** * unfolding [run] *)
+Definition run_list : list etree -> plan -> list event * plan * bool :=
+  fix go (ts : list etree) (pl : plan) {struct ts} : list event * plan * bool :=
+    match ts with
+    | [] => ([], pl, false)
+    | t' :: ts' =>
+        let '(es1, pl', f1) := run t' pl in
+        if f1 then (es1, pl', true)
+        else let '(es2, pl'', f2) := go ts' pl' in (es1 ++ es2, pl'', f2)
+    end.
+
+Lemma run_frame_eq : forall c tg body pl,
+  run (Frame c tg body) pl =
+  let '(bs, pl1, bfail) := run_begins tg c [] pl in
+  if bfail then (bs, pl1, true) else
+  let '(es, pl2, bodyfail) := run_list body pl1 in
+  let '(ends, pl3, efail) := run_ends tg c pl2 in
+  (bs ++ es ++ ends, pl3, bodyfail || efail).
+Proof. reflexivity. Qed.
+
+Lemma run_list_cons : forall t ts pl,
+  run_list (t :: ts) pl =
+  let '(es1, pl', f1) := run t pl in
+  if f1 then (es1, pl', true)
+  else let '(es2, pl'', f2) := run_list ts pl' in (es1 ++ es2, pl'', f2).
+Proof. reflexivity. Qed.
+
+Lemma run_ev_eq : forall e pl,
+  run (Ev e) pl = let '(e', pl', failed) := step e pl in ([e'], pl', failed).
+Proof. reflexivity. Qed.
+
+Lemma run_begins_cons : forall tg p todo begun pl,
+  run_begins tg (p :: todo) begun pl =
+  let '(e, pl', failed) := step (begin_ev tg p) pl in
+  if failed then (e :: map (end_ev tg) begun, pl', true)
+  else let '(es, pl'', f) := run_begins tg todo (begun ++ [p]) pl' in (e :: es, pl'', f).
+Proof. reflexivity. Qed.
+
+Lemma run_ends_cons : forall tg p todo pl,
+  run_ends tg (p :: todo) pl =
+  let '(e, pl', failed) := step (end_ev tg p) pl in
+  let '(es, pl'', f) := run_ends tg todo pl' in
+  (e :: es, pl'', failed || f).
+Proof. reflexivity. Qed.
+
+(** * one callback *)
+Lemma step_spec : forall e pl e' pl' f,
+  step e pl = (e', pl', f) -> (f = false /\ e' = e) \/ (f = true /\ e' = fail e /\ pl' = None).
+Proof. intros e [[|n]|] e' pl' f H; simpl in H; inversion H; auto. Qed.
+
+Lemma step_none : forall e e' pl' f, step e None = (e', pl', f) -> e' = e /\ pl' = None /\ f = false.
+Proof. intros. simpl in H. inversion H. auto. Qed.
+
+(** * which begin/end events a trace contains *)
+Definition is_mark (k : ekind) : bool := match k with KBegin | KEnd => true | _ => false end.
+
+Definition marks_in (tr : list event) (l : list (bool * path)) : Prop :=
+  forall e, In e tr -> is_mark (ev_kind e) = true -> In (ev_target e, ev_path e) l.
+
+Lemma marks_in_nil : forall l, marks_in [] l.
+Proof. intros l e []. Qed.
+
+Lemma marks_in_cons : forall e tr l,
+  (is_mark (ev_kind e) = true -> In (ev_target e, ev_path e) l) -> marks_in tr l -> marks_in (e :: tr) l.
+Proof. intros e tr l H1 H2 x [<-|Hin] Hm; auto. Qed.
+
+Lemma marks_in_app : forall a b l, marks_in a l -> marks_in b l -> marks_in (a ++ b) l.
+Proof. intros a b l Ha Hb e Hin Hm. apply in_app_or in Hin. destruct Hin; auto. Qed.
+
+Lemma marks_in_incl : forall a l l', marks_in a l -> incl l l' -> marks_in a l'.
+Proof. intros a l l' Ha Hi e Hin Hm. apply Hi. apply Ha; assumption. Qed.
+
+Lemma marks_in_begins : forall tg c, marks_in (map (begin_ev tg) c) (map (fun p => (tg, p)) c).
+Proof.
+  intros tg c e Hin _. apply in_map_iff in Hin. destruct Hin as [p [<- Hp]]. simpl.
+  apply in_map_iff. exists p. auto.
+Qed.
+
+Lemma marks_in_ends : forall tg c, marks_in (map (end_ev tg) c) (map (fun p => (tg, p)) c).
+Proof.
+  intros tg c e Hin _. apply in_map_iff in Hin. destruct Hin as [p [<- Hp]]. simpl.
+  apply in_map_iff. exists p. auto.
+Qed.
+
+Lemma marks_in_run_begins : forall tg todo begun pl es pl' f,
+  run_begins tg todo begun pl = (es, pl', f) -> marks_in es (map (fun p => (tg, p)) (begun ++ todo)).
+Proof.
+  intros tg todo. induction todo as [|q todo IH]; intros begun pl es pl' f H.
+  - simpl in H. inversion H. apply marks_in_nil.
+  - rewrite run_begins_cons in H. destruct (step (begin_ev tg q) pl) as [[e pl1] f1] eqn:S.
+    assert (He : ev_target e = tg /\ ev_path e = q).
+    { apply step_spec in S. destruct S as [[_ ->]|[_ [-> _]]]; auto. }
+    destruct He as [He1 He2].
+    destruct f1.
+    + inversion H; subst. apply marks_in_cons.
+      * intros _. apply in_map_iff. exists (ev_path e). split. reflexivity. apply in_or_app. right. left. reflexivity.
+      * eapply marks_in_incl. apply marks_in_ends. intros x Hx. apply in_map_iff in Hx.
+        destruct Hx as [p [<- Hp]]. apply in_map_iff. exists p. split. reflexivity. apply in_or_app. left. assumption.
+    + destruct (run_begins tg todo (begun ++ [q]) pl1) as [[es' pl''] f'] eqn:R. inversion H; subst.
+      apply IH in R. rewrite <- app_assoc in R. simpl in R. apply marks_in_cons; auto.
+      intros _. apply in_map_iff. exists (ev_path e). split. reflexivity. apply in_or_app. right. left. reflexivity.
+Qed.
+
+Lemma marks_in_run_ends : forall tg todo pl es pl' f,
+  run_ends tg todo pl = (es, pl', f) -> marks_in es (map (fun p => (tg, p)) todo).
+Proof.
+  intros tg todo. induction todo as [|q todo IH]; intros pl es pl' f H.
+  - simpl in H. inversion H. apply marks_in_nil.
+  - rewrite run_ends_cons in H. destruct (step (end_ev tg q) pl) as [[e pl1] f1] eqn:S.
+    destruct (run_ends tg todo pl1) as [[es' pl''] f'] eqn:R. inversion H; subst.
+    assert (He : ev_target e = tg /\ ev_path e = q).
+    { apply step_spec in S. destruct S as [[_ ->]|[_ [-> _]]]; auto. }
+    destruct He as [He1 He2]. apply marks_in_cons.
+    + intros _. rewrite He1, He2. left. reflexivity.
+    + eapply marks_in_incl. eapply IH; eauto. intros x Hx. right. assumption.
+Qed.
+
+(** * bracket_path: composition lemmas *)
+Lemma bp_skip : forall tg p a l, marks_in a l -> ~ In (tg, p) l ->
+  forall o b, bracket_path tg p o (a ++ b) = bracket_path tg p o b.
+Proof.
+  intros tg p a l. induction a as [|e a IH]; intros Hm Hn o b. reflexivity.
+  assert (Hm' : marks_in a l). { intros x Hx. apply Hm. right. assumption. }
+  simpl. destruct (Bool.eqb (ev_target e) tg && path_eqb (ev_path e) p) eqn:T.
+  - apply andb_true_iff in T. destruct T as [T1 T2]. apply eqb_prop in T1. apply path_eqb_eq in T2.
+    assert (Hk : is_mark (ev_kind e) = false).
+    { destruct (is_mark (ev_kind e)) eqn:K; auto. exfalso. apply Hn. rewrite <- T1, <- T2. apply Hm. left; reflexivity. assumption. }
+    destruct (ev_kind e); simpl in Hk; try discriminate; apply IH; assumption.
+  - apply IH; assumption.
+Qed.
+
+Lemma bp_skip_nil : forall tg p a l, marks_in a l -> ~ In (tg, p) l ->
+  forall o, bracket_path tg p o a = negb o.
+Proof. intros. rewrite <- (app_nil_r a). erewrite bp_skip; eauto. Qed.
+
+Lemma bp_closed : forall tg p a o b,
+  bracket_path tg p o a = true -> bracket_path tg p o (a ++ b) = bracket_path tg p false b.
+Proof.
+  intros tg p a. induction a as [|e a IH]; intros o b H; simpl in *.
+  - destruct o; simpl in H; try discriminate. reflexivity.
+  - destruct (Bool.eqb (ev_target e) tg && path_eqb (ev_path e) p).
+    + destruct (ev_kind e).
+      * destruct (ev_ok e).
+        -- apply andb_true_iff in H. destruct H as [H1 H2]. rewrite H1. simpl. apply IH. assumption.
+        -- apply IH. assumption.
+      * apply andb_true_iff in H. destruct H as [H1 H2]. rewrite H1. simpl. apply IH. assumption.
+      * apply IH. assumption.
+      * apply IH. assumption.
+    + apply IH. assumption.
+Qed.
+
+(** the begin chain of a frame, all succeeding, opens each of its nodes *)
+Lemma bp_begins_open : forall tg p c r, NoDup c -> In p c ->
+  bracket_path tg p false (map (begin_ev tg) c ++ r) = bracket_path tg p true r.
+Proof.
+  intros tg p c r. induction c as [|q c IH]; intros Hnd Hin. destruct Hin.
+  inversion Hnd; subst. simpl. rewrite eqb_reflx. simpl.
+  destruct (path_eq_dec q p) as [->|Hne].
+  - rewrite path_eqb_refl. simpl. eapply bp_skip. apply marks_in_begins.
+    intros Hx. apply in_map_iff in Hx. destruct Hx as [p' [Hx1 Hx2]]. inversion Hx1; subst. contradiction.
+  - rewrite path_eqb_neq by assumption. apply IH. assumption. destruct Hin; [contradiction|assumption].
+Qed.
+
+(** rollback of a failed begin chain: exactly the nodes already begun are ended *)
+Lemma bp_rollback : forall tg p l, NoDup l -> bracket_path tg p (memb p l) (map (end_ev tg) l) = true.
+Proof.
+  intros tg p l. induction l as [|q l IH]; intros Hnd. reflexivity.
+  inversion Hnd; subst. simpl. rewrite eqb_reflx. simpl.
+  destruct (path_eq_dec q p) as [->|Hne].
+  - rewrite path_eqb_refl. rewrite memb_in by (left; reflexivity). simpl.
+    rewrite <- (memb_notin p l) by assumption. apply IH. assumption.
+  - rewrite path_eqb_neq by assumption.
+    assert (E : memb p (q :: l) = memb p l).
+    { destruct (in_dec path_eq_dec p l) as [Hi|Hi].
+      - rewrite (memb_in p l) by assumption. apply memb_in. right. assumption.
+      - rewrite (memb_notin p l) by assumption. apply memb_notin. intros [Hx|Hx]; [congruence|contradiction]. }
+    rewrite E. apply IH. assumption.
+Qed.
+
+Lemma bp_run_begins_fail : forall tg p todo begun pl es pl',
+  NoDup (begun ++ todo) -> run_begins tg todo begun pl = (es, pl', true) ->
+  bracket_path tg p (memb p begun) es = true.
+Proof.
+  intros tg p todo. induction todo as [|q todo IH]; intros begun pl es pl' Hnd H.
+  - simpl in H. inversion H.
+  - rewrite run_begins_cons in H. destruct (step (begin_ev tg q) pl) as [[e pl1] f1] eqn:S.
+    apply step_spec in S. destruct f1.
+    + destruct S as [[S _]|[_ [-> _]]]; try discriminate. inversion H; subst.
+      simpl. rewrite eqb_reflx. simpl. destruct (path_eqb q p); apply bp_rollback;
+        apply NoDup_app_l in Hnd; assumption.
+    + destruct S as [[_ ->]|[S _]]; try discriminate.
+      destruct (run_begins tg todo (begun ++ [q]) pl1) as [[es' pl''] f'] eqn:R. inversion H; subst.
+      assert (Hnd' : NoDup ((begun ++ [q]) ++ todo)). { rewrite <- app_assoc. simpl. assumption. }
+      specialize (IH _ _ _ _ Hnd' R). simpl. rewrite eqb_reflx. simpl.
+      destruct (path_eq_dec q p) as [->|Hne].
+      * rewrite path_eqb_refl. simpl.
+        rewrite (memb_in p (begun ++ [p])) in IH by (apply in_or_app; right; left; reflexivity).
+        rewrite memb_notin. simpl. assumption.
+        apply NoDup_remove_2 in Hnd. intros Hx. apply Hnd. apply in_or_app. left. assumption.
+      * rewrite path_eqb_neq by assumption.
+        assert (E : memb p (begun ++ [q]) = memb p begun).
+        { destruct (in_dec path_eq_dec p begun) as [Hi|Hi].
+          - rewrite (memb_in p begun) by assumption. apply memb_in. apply in_or_app. left. assumption.
+          - rewrite (memb_notin p begun) by assumption. apply memb_notin. intros Hx. apply in_app_or in Hx.
+            destruct Hx as [Hx|[Hx|[]]]; [contradiction|congruence]. }
+        rewrite <- E. assumption.
+Qed.
+
+Lemma run_begins_ok : forall tg todo begun pl es pl',
+  run_begins tg todo begun pl = (es, pl', false) -> es = map (begin_ev tg) todo.
+Proof.
+  intros tg todo. induction todo as [|q todo IH]; intros begun pl es pl' H.
+  - simpl in H. inversion H. reflexivity.
+  - rewrite run_begins_cons in H. destruct (step (begin_ev tg q) pl) as [[e pl1] f1] eqn:S.
+    apply step_spec in S. destruct f1. discriminate.
+    destruct S as [[_ ->]|[S _]]; try discriminate.
+    destruct (run_begins tg todo (begun ++ [q]) pl1) as [[es' pl''] f'] eqn:R. inversion H; subst.
+    simpl. f_equal. eapply IH. eassumption.
+Qed.
+
+(** the end chain closes each of its nodes, whatever the callbacks return *)
+Lemma bp_run_ends_close : forall tg p todo pl es pl' f, NoDup todo -> In p todo ->
+  run_ends tg todo pl = (es, pl', f) -> bracket_path tg p true es = true.
+Proof.
+  intros tg p todo. induction todo as [|q todo IH]; intros pl es pl' f Hnd Hin H. destruct Hin.
+  rewrite run_ends_cons in H. destruct (step (end_ev tg q) pl) as [[e pl1] f1] eqn:S.
+  destruct (run_ends tg todo pl1) as [[es' pl''] f'] eqn:R. inversion H; subst. inversion Hnd; subst.
+  assert (He : ev_target e = tg /\ ev_path e = q /\ ev_kind e = KEnd).
+  { apply step_spec in S. destruct S as [[_ ->]|[_ [-> _]]]; auto. }
+  destruct He as [He1 [He2 He3]]. simpl. rewrite He1, He2, He3, eqb_reflx. simpl.
+  destruct (path_eq_dec q p) as [->|Hne].
+  - rewrite path_eqb_refl. simpl. erewrite bp_skip_nil. reflexivity.
+    eapply marks_in_run_ends; eauto.
+    intros Hx. apply in_map_iff in Hx. destruct Hx as [p' [Hx1 Hx2]]. inversion Hx1; subst. contradiction.
+  - rewrite path_eqb_neq by assumption. eapply IH; eauto. destruct Hin; [contradiction|assumption].
+Qed.
+
+(** * no write after the failure, and success means every callback succeeded *)
+Definition all_ok (tr : list event) : bool := forallb ev_ok tr.
+Definition only_ends (tr : list event) : bool := forallb (fun e => ekind_eqb (ev_kind e) KEnd) tr.
+
+Lemma nwaf_only_ends : forall tr f, only_ends tr = true -> no_write_after_failure f tr = true.
+Proof.
+  induction tr as [|e tr IH]; intros f H. reflexivity.
+  simpl in *. apply andb_true_iff in H. destruct H as [H1 H2]. rewrite IH by assumption.
+  destruct (ev_kind e); simpl in H1; try discriminate. destruct f; reflexivity.
+Qed.
+
+Lemma nwaf_all_ok_app : forall a b, all_ok a = true ->
+  no_write_after_failure false (a ++ b) = no_write_after_failure false b.
+Proof.
+  induction a as [|e a IH]; intros b H. reflexivity.
+  simpl in *. apply andb_true_iff in H. destruct H as [H1 H2]. rewrite H1. simpl. apply IH. assumption.
+Qed.
+
+Lemma nwaf_app_ends : forall a b f, no_write_after_failure f a = true -> only_ends b = true ->
+  no_write_after_failure f (a ++ b) = true.
+Proof.
+  induction a as [|e a IH]; intros b f Ha Hb. simpl. apply nwaf_only_ends. assumption.
+  simpl in *. apply andb_true_iff in Ha. destruct Ha as [H1 H2]. rewrite H1. simpl. apply IH; assumption.
+Qed.
+
+Lemma all_ok_app : forall a b, all_ok (a ++ b) = all_ok a && all_ok b.
+Proof. intros. unfold all_ok. apply forallb_app. Qed.
+
+Lemma all_ok_begins : forall tg c, all_ok (map (begin_ev tg) c) = true.
+Proof. intros. induction c; simpl; auto. Qed.
+
+Lemma only_ends_map : forall tg c, only_ends (map (end_ev tg) c) = true.
+Proof. intros. induction c; simpl; auto. Qed.
+
+Lemma nwaf_run_begins : forall tg todo begun pl es pl' f,
+  run_begins tg todo begun pl = (es, pl', f) -> no_write_after_failure false es = true.
+Proof.
+  intros tg todo. induction todo as [|q todo IH]; intros begun pl es pl' f H.
+  - simpl in H. inversion H. reflexivity.
+  - rewrite run_begins_cons in H. destruct (step (begin_ev tg q) pl) as [[e pl1] f1] eqn:S.
+    apply step_spec in S. destruct f1.
+    + inversion H; subst. simpl. apply nwaf_only_ends. apply only_ends_map.
+    + destruct S as [[_ ->]|[S _]]; try discriminate.
+      destruct (run_begins tg todo (begun ++ [q]) pl1) as [[es' pl''] f'] eqn:R. inversion H; subst.
+      simpl. eapply IH. eassumption.
+Qed.
+
+Lemma run_ends_inv : forall tg todo pl es pl' f,
+  run_ends tg todo pl = (es, pl', f) -> only_ends es = true /\ (f = false -> all_ok es = true).
+Proof.
+  intros tg todo. induction todo as [|q todo IH]; intros pl es pl' f H.
+  - simpl in H. inversion H. auto.
+  - rewrite run_ends_cons in H. destruct (step (end_ev tg q) pl) as [[e pl1] f1] eqn:S.
+    destruct (run_ends tg todo pl1) as [[es' pl''] f'] eqn:R. inversion H; subst.
+    apply IH in R. destruct R as [R1 R2]. apply step_spec in S. split.
+    + simpl. rewrite R1. destruct S as [[_ ->]|[_ [-> _]]]; reflexivity.
+    + intros Hf. apply orb_false_iff in Hf. destruct Hf as [-> ->].
+      destruct S as [[_ ->]|[S _]]; try discriminate. simpl. auto.
+Qed.
+
+(** * the invariant of [run] that does not depend on nesting *)
+Definition run_inv_at (t : etree) : Prop :=
+  no_marks t = true -> forall pl tr pl' f, run t pl = (tr, pl', f) ->
+  marks_in tr (chains t) /\ no_write_after_failure false tr = true /\ (f = false -> all_ok tr = true).
+
+Lemma run_list_inv : forall body, Forall run_inv_at body -> forallb no_marks body = true ->
+  forall pl tr pl' f, run_list body pl = (tr, pl', f) ->
+  marks_in tr (flat_map chains body) /\ no_write_after_failure false tr = true /\ (f = false -> all_ok tr = true).
+Proof.
+  intros body HF. induction HF as [|t ts Ht HF IH]; intros Hnm pl tr pl' f H.
+  - simpl in H. inversion H. split. apply marks_in_nil. auto.
+  - simpl in Hnm. apply andb_true_iff in Hnm. destruct Hnm as [Hn1 Hn2].
+    rewrite run_list_cons in H. destruct (run t pl) as [[es1 pl1] f1] eqn:R1.
+    destruct (Ht Hn1 _ _ _ _ R1) as [A1 [A2 A3]]. simpl.
+    destruct f1.
+    + inversion H; subst. split; [|split].
+      * eapply marks_in_incl. eassumption. apply incl_appl. apply incl_refl.
+      * assumption.
+      * discriminate.
+    + destruct (run_list ts pl1) as [[es2 pl2] f2] eqn:R2. inversion H; subst.
+      destruct (IH Hn2 _ _ _ _ R2) as [B1 [B2 B3]]. split; [|split].
+      * apply marks_in_app.
+        -- eapply marks_in_incl. eassumption. apply incl_appl. apply incl_refl.
+        -- eapply marks_in_incl. eassumption. apply incl_appr. apply incl_refl.
+      * rewrite nwaf_all_ok_app; auto.
+      * intros Hf. rewrite all_ok_app, A3, B3; auto.
+Qed.
+
+Lemma run_inv : forall t, run_inv_at t.
+Proof.
+  induction t as [e|c tg body HF] using etree_ind2; intros Hnm pl tr pl' f H.
+  - rewrite run_ev_eq in H. destruct (step e pl) as [[e' pl1] f1] eqn:S. inversion H; subst.
+    simpl in Hnm. apply step_spec in S. split; [|split].
+    + apply marks_in_cons. 2: apply marks_in_nil.
+      assert (K : ev_kind e' = ev_kind e) by (destruct S as [[_ ->]|[_ [-> _]]]; reflexivity).
+      rewrite K. destruct (ev_kind e); simpl; discriminate.
+    + simpl. rewrite ?andb_true_r. reflexivity.
+    + intros ->. destruct S as [[_ ->]|[S _]]; try discriminate. simpl. rewrite ?andb_true_r.
+      destruct (ev_kind e); try discriminate; assumption.
+  - simpl in Hnm. rewrite run_frame_eq in H.
+    destruct (run_begins tg c [] pl) as [[bs pl1] bfail] eqn:RB.
+    pose proof (marks_in_run_begins _ _ _ _ _ _ _ RB) as MB. simpl in MB.
+    pose proof (nwaf_run_begins _ _ _ _ _ _ _ RB) as NB.
+    destruct bfail.
+    + inversion H; subst. split; [|split].
+      * simpl. eapply marks_in_incl. eassumption. apply incl_appl. apply incl_refl.
+      * assumption.
+      * discriminate.
+    + apply run_begins_ok in RB. subst bs.
+      destruct (run_list body pl1) as [[es pl2] bodyfail] eqn:RL.
+      destruct (run_ends tg c pl2) as [[ends pl3] efail] eqn:RE. inversion H; subst.
+      destruct (run_list_inv body HF Hnm _ _ _ _ RL) as [L1 [L2 L3]].
+      pose proof (marks_in_run_ends _ _ _ _ _ _ RE) as ME.
+      destruct (run_ends_inv _ _ _ _ _ _ RE) as [E1 E2]. split; [|split].
+      * simpl. apply marks_in_app. eapply marks_in_incl. eassumption. apply incl_appl. apply incl_refl.
+        apply marks_in_app. eapply marks_in_incl. eassumption. apply incl_appr. apply incl_refl.
+        eapply marks_in_incl. eassumption. apply incl_appl. apply incl_refl.
+      * rewrite nwaf_all_ok_app by apply all_ok_begins. apply nwaf_app_ends; assumption.
+      * intros Hf. apply orb_false_iff in Hf. destruct Hf as [-> ->].
+        rewrite !all_ok_app, all_ok_begins, L3, E2; auto.
+Qed.
+
+(** * bracketing *)
+Definition bracket_at (t : etree) : Prop :=
+  no_marks t = true -> disjoint_nesting t = true ->
+  forall pl tg p, bracket_path tg p false (fst (fst (run t pl))) = true.
+
+Lemma bracket_run_list : forall body, Forall bracket_at body ->
+  forallb no_marks body = true -> forallb disjoint_nesting body = true ->
+  forall pl tg p, bracket_path tg p false (fst (fst (run_list body pl))) = true.
+Proof.
+  intros body HF. induction HF as [|t ts Ht HF IH]; intros Hnm Hdj pl tg p. reflexivity.
+  simpl in Hnm, Hdj. apply andb_true_iff in Hnm. destruct Hnm as [Hn1 Hn2].
+  apply andb_true_iff in Hdj. destruct Hdj as [Hd1 Hd2].
+  rewrite run_list_cons. specialize (Ht Hn1 Hd1 pl tg p).
+  destruct (run t pl) as [[es1 pl1] f1] eqn:R1. simpl in Ht. destruct f1. assumption.
+  specialize (IH Hn2 Hd2 pl1 tg p). destruct (run_list ts pl1) as [[es2 pl2] f2] eqn:R2. simpl in *.
+  rewrite (bp_closed _ _ _ _ _ Ht). assumption.
+Qed.
+
+Lemma bracket_run : forall t, bracket_at t.
+Proof.
+  induction t as [e|c tg' body HF] using etree_ind2; intros Hnm Hdj pl tg p.
+  - rewrite run_ev_eq. destruct (step e pl) as [[e' pl1] f1] eqn:S. simpl.
+    apply step_spec in S.
+    assert (K : ev_kind e' = ev_kind e) by (destruct S as [[_ ->]|[_ [-> _]]]; reflexivity).
+    rewrite K. simpl in Hnm. destruct (ev_kind e); try discriminate;
+      destruct (Bool.eqb (ev_target e') tg && path_eqb (ev_path e') p); reflexivity.
+  - simpl in Hnm, Hdj. apply andb_true_iff in Hdj. destruct Hdj as [Hdj Hd3].
+    apply andb_true_iff in Hdj. destruct Hdj as [Hd1 Hd2].
+    apply nodup_tp_NoDup in Hd1.
+    assert (Hnd : NoDup c) by (eapply NoDup_map_inv; eassumption).
+    assert (Hdis : forall q, In q (map (fun p => (tg', p)) c) -> ~ In q (flat_map chains body)).
+    { intros q Hq Hx. rewrite forallb_forall in Hd2. specialize (Hd2 q Hq).
+      apply existsb_tp_In in Hx. rewrite Hx in Hd2. discriminate. }
+    rewrite run_frame_eq.
+    destruct (run_begins tg' c [] pl) as [[bs pl1] bfail] eqn:RB.
+    destruct (in_dec tp_eq_dec (tg, p) (map (fun p => (tg', p)) c)) as [Hin|Hout].
+    + (* a node of this frame's chain *)
+      apply in_map_iff in Hin. destruct Hin as [p0 [Hp0 Hin]]. inversion Hp0; subst tg' p0.
+      destruct bfail.
+      * simpl. apply (bp_run_begins_fail tg p) in RB; auto.
+      * apply run_begins_ok in RB. subst bs.
+        destruct (run_list body pl1) as [[es pl2] bodyfail] eqn:RL.
+        destruct (run_ends tg c pl2) as [[ends pl3] efail] eqn:RE. simpl.
+        rewrite bp_begins_open by assumption.
+        assert (HRI : Forall run_inv_at body) by (apply Forall_forall; intros; apply run_inv).
+        destruct (run_list_inv body HRI Hnm _ _ _ _ RL) as [L1 _].
+        erewrite bp_skip. 2: eassumption.
+        2: { apply Hdis. apply in_map_iff. exists p. auto. }
+        eapply bp_run_ends_close; eauto.
+    + (* some other node: the chain's events do not concern it *)
+      destruct bfail.
+      * simpl. apply marks_in_run_begins in RB. simpl in RB. erewrite bp_skip_nil; eauto.
+      * apply run_begins_ok in RB. subst bs.
+        pose proof (bracket_run_list body HF Hnm Hd3 pl1 tg p) as HB.
+        destruct (run_list body pl1) as [[es pl2] bodyfail] eqn:RL.
+        destruct (run_ends tg' c pl2) as [[ends pl3] efail] eqn:RE. simpl in *.
+        erewrite bp_skip. 2: apply marks_in_begins. 2: assumption.
+        rewrite (bp_closed _ _ _ _ _ HB).
+        apply marks_in_run_ends in RE. erewrite bp_skip_nil; eauto.
+Qed.
+
+(** * scope *)
+Definition scoped (root p : path) : bool := is_prefix p root || is_prefix root p.
+
+Lemma chains_scoped : forall root t, frame_scoped root t = true ->
+  forall tg p, In (tg, p) (chains t) -> scoped root p = true.
+Proof.
+  intros root. induction t as [e|c tg' body HF] using etree_ind2; intros Hs tg p Hin.
+  - destruct Hin.
+  - simpl in Hs, Hin. apply andb_true_iff in Hs. destruct Hs as [Hs1 Hs2].
+    apply in_app_or in Hin. destruct Hin as [Hin|Hin].
+    + apply in_map_iff in Hin. destruct Hin as [p0 [Hp0 Hin]]. inversion Hp0; subst.
+      rewrite forallb_forall in Hs1. apply Hs1. assumption.
+    + apply in_flat_map in Hin. destruct Hin as [t [Ht Hin]].
+      rewrite Forall_forall in HF. rewrite forallb_forall in Hs2. eapply HF; eauto.
+Qed.
+
+Lemma in_scope_marks : forall root tr l, marks_in tr l ->
+  (forall tg p, In (tg, p) l -> scoped root p = true) -> in_scope root tr = true.
+Proof.
+  intros root tr l Hm Hl. unfold in_scope. apply forallb_forall. intros e He.
+  specialize (Hm e He). destruct (ev_kind e); auto; eapply Hl; apply Hm; reflexivity.
+Qed.
+
+(** * C12 for every fault plan *)
+Theorem c12_all_plans : forall root t pl, wf_tree root t = true ->
+  let tr := fst (fst (run t pl)) in
+  well_bracketed tr = true /\ no_write_after_failure false tr = true /\ in_scope root tr = true.
+Proof.
+  intros root t pl Hwf. unfold wf_tree in Hwf.
+  apply andb_true_iff in Hwf. destruct Hwf as [Hwf Hdj].
+  apply andb_true_iff in Hwf. destruct Hwf as [Hnm Hsc].
+  destruct (run t pl) as [[tr pl'] f] eqn:R. simpl.
+  destruct (run_inv t Hnm _ _ _ _ R) as [I1 [I2 _]].
+  split; [|split].
+  - unfold well_bracketed. apply forallb_forall. intros e _.
+    pose proof (bracket_run t Hnm Hdj pl) as HB. rewrite R in HB. simpl in HB.
+    destruct (ev_kind e); auto.
+  - assumption.
+  - eapply in_scope_marks. eassumption. apply chains_scoped. assumption.
+Qed.
+
+Theorem c12_all_faults : forall root t k, wf_tree root t = true ->
+  well_bracketed (run_fault t k) = true /\
+  no_write_after_failure false (run_fault t k) = true /\
+  in_scope root (run_fault t k) = true.
+Proof. intros root t k Hwf. exact (c12_all_plans root t (Some k) Hwf). Qed.
+
+(** * the fault-free run, and the failure flag *)
+Lemma run_begins_none : forall tg todo begun,
+  run_begins tg todo begun None = (map (begin_ev tg) todo, None, false).
+Proof.
+  intros tg todo. induction todo as [|q todo IH]; intros begun. reflexivity.
+  rewrite run_begins_cons. simpl. rewrite IH. reflexivity.
+Qed.
+
+Lemma run_ends_none : forall tg todo, run_ends tg todo None = (map (end_ev tg) todo, None, false).
+Proof.
+  intros tg todo. induction todo as [|q todo IH]. reflexivity.
+  rewrite run_ends_cons. simpl. rewrite IH. reflexivity.
+Qed.
+
+Lemma run_list_none : forall body, Forall (fun t => exists tr, run t None = (tr, None, false)) body ->
+  exists tr, run_list body None = (tr, None, false).
+Proof.
+  intros body HF. induction HF as [|t ts [tr1 Ht] HF [tr2 IH]]. exists []. reflexivity.
+  rewrite run_list_cons, Ht, IH. eexists. reflexivity.
+Qed.
+
+Lemma run_none : forall t, exists tr, run t None = (tr, None, false).
+Proof.
+  induction t as [e|c tg body HF] using etree_ind2.
+  - eexists. reflexivity.
+  - rewrite run_frame_eq, run_begins_none. destruct (run_list_none body HF) as [tr Hb].
+    rewrite Hb, run_ends_none. eexists. reflexivity.
+Qed.
+
+Lemma any_failed_all_ok : forall tr, any_failed tr = negb (all_ok tr).
+Proof.
+  induction tr as [|e tr IH]. reflexivity.
+  unfold any_failed, all_ok in *. simpl. rewrite IH. destruct (ev_ok e); reflexivity.
+Qed.
+
+Lemma any_failed_app : forall a b, any_failed (a ++ b) = any_failed a || any_failed b.
+Proof. intros. unfold any_failed. apply existsb_app. Qed.
+
+Lemma run_begins_failed : forall tg todo begun pl es pl' ,
+  run_begins tg todo begun pl = (es, pl', true) -> any_failed es = true /\ pl' = None.
+Proof.
+  intros tg todo. induction todo as [|q todo IH]; intros begun pl es pl' H.
+  - simpl in H. inversion H.
+  - rewrite run_begins_cons in H. destruct (step (begin_ev tg q) pl) as [[e pl1] f1] eqn:S.
+    apply step_spec in S. destruct f1.
+    + destruct S as [[S _]|[_ [-> ->]]]; try discriminate. inversion H; subst. auto.
+    + destruct (run_begins tg todo (begun ++ [q]) pl1) as [[es' pl''] f'] eqn:R. inversion H; subst.
+      apply IH in R. destruct R as [R1 R2]. split; auto.
+      change (e :: es') with ([e] ++ es'). rewrite any_failed_app, R1. apply orb_true_r.
+Qed.
+
+Lemma run_ends_failed : forall tg todo pl es pl',
+  run_ends tg todo pl = (es, pl', true) -> any_failed es = true /\ pl' = None.
+Proof.
+  intros tg todo. induction todo as [|q todo IH]; intros pl es pl' H.
+  - simpl in H. inversion H.
+  - rewrite run_ends_cons in H. destruct (step (end_ev tg q) pl) as [[e pl1] f1] eqn:S.
+    destruct (run_ends tg todo pl1) as [[es' pl''] f'] eqn:R. inversion H; subst.
+    change (e :: es') with ([e] ++ es'). rewrite any_failed_app.
+    apply step_spec in S. destruct S as [[-> ->]|[-> [-> ->]]].
+    + simpl in *. subst f'. apply IH in R. destruct R as [R1 ->]. rewrite ?R1. split; [rewrite ?orb_true_r|]; reflexivity.
+    + rewrite run_ends_none in R. inversion R; subst. auto.
+Qed.
+
+(** the subtree reports failure exactly when one of its callbacks failed, and then the plan is spent *)
+Definition failed_at (t : etree) : Prop :=
+  forall pl tr pl', run t pl = (tr, pl', true) -> any_failed tr = true /\ pl' = None.
+
+Lemma run_list_failed : forall body, Forall failed_at body ->
+  forall pl tr pl', run_list body pl = (tr, pl', true) -> any_failed tr = true /\ pl' = None.
+Proof.
+  intros body HF. induction HF as [|t ts Ht HF IH]; intros pl tr pl' H.
+  - simpl in H. inversion H.
+  - rewrite run_list_cons in H. destruct (run t pl) as [[es1 pl1] f1] eqn:R1. destruct f1.
+    + inversion H; subst. eapply Ht. eassumption.
+    + destruct (run_list ts pl1) as [[es2 pl2] f2] eqn:R2. inversion H; subst.
+      apply IH in R2. destruct R2 as [A B]. rewrite any_failed_app, A. split. apply orb_true_r. assumption.
+Qed.
+
+Lemma run_failed : forall t, failed_at t.
+Proof.
+  induction t as [e|c tg body HF] using etree_ind2; intros pl tr pl' H.
+  - rewrite run_ev_eq in H. destruct (step e pl) as [[e' pl1] f1] eqn:S. inversion H; subst.
+    apply step_spec in S. destruct S as [[S _]|[_ [-> ->]]]; try discriminate. auto.
+  - rewrite run_frame_eq in H. destruct (run_begins tg c [] pl) as [[bs pl1] bfail] eqn:RB.
+    destruct bfail.
+    + inversion H; subst. eapply run_begins_failed. eassumption.
+    + destruct (run_list body pl1) as [[es pl2] bodyfail] eqn:RL.
+      destruct (run_ends tg c pl2) as [[ends pl3] efail] eqn:RE. inversion H; subst.
+      rewrite !any_failed_app. destruct bodyfail.
+      * apply (run_list_failed body HF) in RL. destruct RL as [-> ->].
+        rewrite run_ends_none in RE. inversion RE; subst. split. rewrite orb_true_r. reflexivity. reflexivity.
+      * simpl in *. subst efail. apply run_ends_failed in RE. destruct RE as [-> ->].
+        split. rewrite !orb_true_r. reflexivity. reflexivity.
+Qed.
+
+Theorem run_flag_iff_any_failed : forall t pl, no_marks t = true ->
+  snd (run t pl) = any_failed (fst (fst (run t pl))).
+Proof.
+  intros t pl Hnm. destruct (run t pl) as [[tr pl'] f] eqn:R. simpl. destruct f.
+  - symmetry. eapply run_failed. eassumption.
+  - destruct (run_inv t Hnm _ _ _ _ R) as [_ [_ H]]. rewrite any_failed_all_ok, H; reflexivity.
+Qed.
+
+Theorem c12_clean_run : forall root t, wf_tree root t = true ->
+  well_bracketed (run_clean t) = true /\
+  no_write_after_failure false (run_clean t) = true /\
+  in_scope root (run_clean t) = true /\
+  any_failed (run_clean t) = false.
+Proof.
+  intros root t Hwf. destruct (c12_all_plans root t None Hwf) as [A [B C]].
+  repeat (split; try assumption).
+  unfold wf_tree in Hwf. apply andb_true_iff in Hwf. destruct Hwf as [Hwf _].
+  apply andb_true_iff in Hwf. destruct Hwf as [Hnm _].
+  unfold run_clean. rewrite <- run_flag_iff_any_failed by assumption.
+  destruct (run_none t) as [tr ->]. reflexivity.
+Qed.
+
+Print Assumptions c12_all_faults.
+Print Assumptions c12_clean_run.
